@@ -433,6 +433,7 @@ theorem gen_labels_nodup (st : SStmt) : ∀ (lp : LoopCtx) (g : GState), (labels
   induction st with
   | flat s => intro lp g; simp [gen, genFlat, labels_flatLines]
   | skip => intro lp g; simp [gen]
+  | forget => intro lp g; simp [gen]
   | brk => intro lp g; cases lp <;> simp [gen]
   | cont => intro lp g; cases lp <;> simp [gen]
   | ifBrk c => intro lp g; cases lp with
@@ -826,6 +827,7 @@ theorem gen_targets (st : SStmt) : ∀ (lp : LoopCtx) (g : GState),
   induction st with
   | flat s => intro lp g l hl; simp [gen, genFlat, targets_flatLines] at hl
   | skip => intro lp g l hl; simp [gen] at hl
+  | forget => intro lp g l hl; simp [gen] at hl
   | brk =>
     intro lp g l hl
     cases lp with
